@@ -49,6 +49,9 @@ pub struct DebugSession {
     terminated: bool,
     /// `seq` of the last request that has got its response.
     answered_request: Option<i64>,
+    /// Set (under the transport lock) when `terminated` is written: the output forwarders
+    /// must not send anything after it.
+    terminated_sent: Arc<std::sync::atomic::AtomicBool>,
     exit_code: Option<i32>,
     exception_filters: Vec<String>,
     last_stop: Option<control::LastStop>,
@@ -119,6 +122,7 @@ impl DebugSession {
             next_progress_id: 1,
             terminated: false,
             answered_request: None,
+            terminated_sent: Arc::default(),
             exit_code: None,
             exception_filters: vec![
                 EXCEPTION_FILTER_SIGNAL.to_string(),
@@ -484,6 +488,10 @@ impl DebugSession {
 
     fn send_event_raw(&mut self, name: &'static str, body: Option<Value>) -> anyhow::Result<()> {
         let mut lock = self.io.lock().unwrap();
+        if name == "terminated" {
+            self.terminated_sent
+                .store(true, std::sync::atomic::Ordering::Relaxed);
+        }
         let seq = self
             .server_seq
             .fetch_add(1, std::sync::atomic::Ordering::Relaxed);
@@ -538,8 +546,12 @@ impl DebugSession {
         stderr_reader: os_pipe::PipeReader,
     ) {
         // Start stdout/stderr forwarding.
+        // a new debuggee: its output may be forwarded until its own `terminated`
+        self.terminated_sent
+            .store(false, std::sync::atomic::Ordering::Relaxed);
         let io = self.io.clone();
         let seq = self.server_seq.clone();
+        let terminated_sent = self.terminated_sent.clone();
         thread::spawn(move || {
             let mut reader = BufReader::new(stdout_reader);
             let mut buf = String::new();
@@ -550,6 +562,9 @@ impl DebugSession {
                     Ok(_) => {
                         {
                             let mut lock = io.lock().unwrap();
+                            if terminated_sent.load(std::sync::atomic::Ordering::Relaxed) {
+                                continue;
+                            }
                             let s = seq.fetch_add(1, std::sync::atomic::Ordering::Relaxed);
                             // TODO log it somehow
                             _ = protocol::send_event(
@@ -567,6 +582,7 @@ impl DebugSession {
 
         let io = self.io.clone();
         let seq = self.server_seq.clone();
+        let terminated_sent = self.terminated_sent.clone();
 
         thread::spawn(move || {
             let mut reader = BufReader::new(stderr_reader);
@@ -578,6 +594,9 @@ impl DebugSession {
                     Ok(_) => {
                         {
                             let mut lock = io.lock().unwrap();
+                            if terminated_sent.load(std::sync::atomic::Ordering::Relaxed) {
+                                continue;
+                            }
                             let s = seq.fetch_add(1, std::sync::atomic::Ordering::Relaxed);
                             // TODO log it somehow
                             _ = protocol::send_event(
